@@ -161,6 +161,7 @@ def generate(unit, repo, vacuity=False):
     from . import extract as _ex
     _ex.FEATURES = set(unit.features) if unit.features is not None else {'parallel'}
     _ex.Source._cache.clear()
+    _ex._expanded_cache.clear()
     g = Generated()
     chunks = []      # (text, meta)
     header = '#![feature(allocator_api)]\nuse vstd::prelude::*;\n'
